@@ -326,6 +326,92 @@ func sigDigits(v uint64) int {
 	return len(s)
 }
 
+// refMsgpackInt decodes one msgpack integer of any integer family (positive/negative fixint, uint8..uint64, int8..int64)
+// with the harness' own reader; ok=false for anything else.
+func refMsgpackInt(b []byte) (v *big.Int, rest []byte, ok bool) {
+	if len(b) == 0 {
+		return nil, nil, false
+	}
+	be := func(n int, signed bool) (*big.Int, []byte, bool) {
+		if len(b) < 1+n {
+			return nil, nil, false
+		}
+		x := new(big.Int).SetBytes(b[1 : 1+n])
+		if signed && b[1]&0x80 != 0 {
+			x.Sub(x, new(big.Int).Lsh(big.NewInt(1), uint(8*n)))
+		}
+		return x, b[1+n:], true
+	}
+	switch c := b[0]; {
+	case c <= 0x7f:
+		return big.NewInt(int64(c)), b[1:], true
+	case c >= 0xe0:
+		return big.NewInt(int64(int8(c))), b[1:], true
+	case c == 0xcc:
+		return be(1, false)
+	case c == 0xcd:
+		return be(2, false)
+	case c == 0xce:
+		return be(4, false)
+	case c == 0xcf:
+		return be(8, false)
+	case c == 0xd0:
+		return be(1, true)
+	case c == 0xd1:
+		return be(2, true)
+	case c == 0xd2:
+		return be(4, true)
+	case c == 0xd3:
+		return be(8, true)
+	}
+	return nil, nil, false
+}
+
+// codec: the msgpack form of an amount is an unsigned integer with exactly that value; a negative integer on the wire is
+// refused (never a wrapped amount); what the package wrote it reads back.
+func (m *c18mon) codec(cn uint64) {
+	args := fmt.Sprint(cn)
+	m.guard("Coin.MarshalMsg", args, func() {
+		m.c.Count("eval_codec", 1)
+		enc, err := currency.Coin(cn).MarshalMsg(nil)
+		if err != nil {
+			m.c.Violate("", "Coin(%d).MarshalMsg failed: %v", cn, err)
+			return
+		}
+		v, rest, ok := refMsgpackInt(enc)
+		if !ok || len(rest) != 0 || v.Cmp(bu(cn)) != 0 {
+			m.c.Violate("", "Coin(%d).MarshalMsg wrote %x, which an independent msgpack reader takes for %v (rest %d bytes)", cn, enc, v, len(rest))
+			return
+		}
+		if currency.Coin(cn).Msgsize() < len(enc) {
+			m.c.Violate("", "Coin(%d).Msgsize() = %d is below the %d bytes written", cn, currency.Coin(cn).Msgsize(), len(enc))
+		}
+		var back currency.Coin
+		if _, err := back.UnmarshalMsg(enc); err != nil || uint64(back) != cn {
+			m.c.Violate("", "Coin(%d) does not survive MarshalMsg/UnmarshalMsg: %d, %v", cn, uint64(back), err)
+		}
+		// the canonical unsigned 64-bit form must be read as well
+		full := append([]byte{0xcf}, new(big.Int).SetUint64(cn).FillBytes(make([]byte, 8))...)
+		var b2 currency.Coin
+		if _, err := b2.UnmarshalMsg(full); err != nil || uint64(b2) != cn {
+			m.c.Violate("", "UnmarshalMsg(uint64 form of %d) = %d, %v", cn, uint64(b2), err)
+		}
+	})
+	// the same 8 bytes as a signed integer: negative when the top bit is set, and then never an amount
+	if cn>>63 == 1 || cn == 0 {
+		neg := append([]byte{0xd3}, new(big.Int).SetUint64(cn|1<<63).FillBytes(make([]byte, 8))...)
+		m.guard("Coin.UnmarshalMsg", fmt.Sprintf("%x", neg), func() {
+			var c3 currency.Coin
+			if _, err := c3.UnmarshalMsg(neg); err == nil {
+				m.c.Violate("", "UnmarshalMsg(%x), a negative msgpack integer, returned the amount %d with nil error", neg, uint64(c3))
+			} else {
+				m.c.Count("loud_failures", 1)
+			}
+		})
+		m.c.Count("negative_wire_integers_refused", 1)
+	}
+}
+
 func (m *c18mon) roundTrip(cn uint64) {
 	args := fmt.Sprint(cn)
 	m.guard("ToZCN", args, func() {
@@ -399,6 +485,7 @@ func runC18(c *fw.Ctx) {
 		}
 		m.unary(a)
 		m.roundTrip(a)
+		m.codec(a)
 		for _, f := range c18F {
 			m.multFloat(a, f)
 			c.Distinct("nontrivial", fw.Hash64("mf", a, math.Float64bits(f)))
@@ -520,16 +607,16 @@ func runC18(c *fw.Ctx) {
 func init() {
 	fw.Register(&fw.Prop{
 		ID:           "C18",
-		EvalCounters: []string{"eval_AddCoin", "eval_MinusCoin", "eval_MultCoin", "eval_Min", "eval_AddInt64", "eval_MinusInt64", "eval_DistributeCoin", "eval_Int64", "eval_Int64ToCoin", "eval_Float64", "eval_Float64ToCoin", "eval_MultFloat64", "eval_ParseZCN", "eval_ToZCN"},
+		EvalCounters: []string{"eval_AddCoin", "eval_MinusCoin", "eval_MultCoin", "eval_Min", "eval_AddInt64", "eval_MinusInt64", "eval_DistributeCoin", "eval_Int64", "eval_Int64ToCoin", "eval_Float64", "eval_Float64ToCoin", "eval_MultFloat64", "eval_ParseZCN", "eval_ToZCN", "eval_codec"},
 		Level:        "exploration",
 		Rule: "cases: (1) every row of the exhaustive B x B table, B = boundary set of ~290 uint64 values (0..5, 2^k-1/2^k/2^k+1, sqrt and max neighbourhoods, 10^k±1), each pair through AddCoin/MinusCoin/MultCoin/Min/AddInt64/MinusInt64/DistributeCoin " +
-			"(second operand also reinterpreted as int64) plus unary conversions, ToZCN/ParseZCN round trip and MultFloat64 against the float set F; (2) pairs whose true product is a non-zero multiple of 2^64; (3) random pairs biased to boundaries; " +
+			"(second operand also reinterpreted as int64) plus unary conversions, the msgpack codec of Coin (what MarshalMsg writes is read by an independent msgpack reader as an unsigned integer of exactly that value; a negative integer on the wire is refused), ToZCN/ParseZCN round trip and MultFloat64 against the float set F; (2) pairs whose true product is a non-zero multiple of 2^64; (3) random pairs biased to boundaries; " +
 			"(4) random/boundary floats through Float64ToCoin and MultFloat64; (5) decimal amounts with 1..17 significant digits through ParseZCN and round trips, plus the nearest float to random 10-decimal amounts and its two immediate float neighbours (which must be refused). Oracle: math/big exact arithmetic, IEEE product + truncation for float helpers, " +
 			"shortest round-trip decimal as exact rational for ParseZCN. distinct non-trivial = distinct operand tuples evaluated",
 		Cases: func(tier string) int { a, b, cc, d, e := c18Layout(tier); return a + b + cc + d + e },
 		Run:   runC18,
 		Floors: map[string]int64{"eval_MultCoin": 100000, "eval_AddCoin": 100000, "eval_DistributeCoin": 100000, "eval_Float64ToCoin": 50000, "eval_MultFloat64": 50000,
-			"eval_ParseZCN": 50000, "round_trips": 20000, "wrap_to_zero_pairs": 20000, "loud_failures": 10000, "parse_ok": 5000, "parse_neighbours": 100000},
+			"eval_ParseZCN": 50000, "eval_codec": 250, "negative_wire_integers_refused": 50, "round_trips": 20000, "wrap_to_zero_pairs": 20000, "loud_failures": 10000, "parse_ok": 5000, "parse_neighbours": 100000},
 		Assumptions: []string{
 			"AddInt64/MinusInt64 with a negative operand: an error or the exact result are both accepted (the helper documents refusal)",
 			"Coin.Float64: the IEEE-nearest float with nil error, or an error, are accepted",
